@@ -188,6 +188,25 @@ def _name_of(ev, m, group=1):
     return ("format", tuple(pieces))
 
 
+def option_cond(cond, branch):
+    """(option value, present) when the condition taken on `branch` says that an Option is Some / None: `if let Some(..) = x`,
+    `x.is_some()`, `x.is_none()`, `match x { None => .. }`, with negations. None for any other condition."""
+    c = cond
+    while isinstance(c, tuple) and c[0] == "not":
+        c, branch = c[1], not branch
+    if not isinstance(c, tuple):
+        return None
+    if c[0] == "islet":
+        lab = c[1].rsplit("::", 1)[-1]
+        if lab.startswith("Some("):
+            return c[2], branch
+        if lab == "None":
+            return c[2], not branch
+    if c[0] == "call" and c[2] and str(c[1]).rsplit("::", 1)[-1] in ("is_some", "is_none"):
+        return c[2][0], branch == str(c[1]).endswith("is_some")
+    return None
+
+
 def type_kind_truth(cond, kind, CE=None):
     """Truth of a condition over a RustFieldType value for kind in {"String", "Other", "prim"}: understands is_string()/is_other()
     (as calls or expanded to `matches!`), variant patterns, not/and/or. None when the condition is about something else."""
@@ -394,7 +413,7 @@ def c07_template_rules(ck, F):
             for e in g.impl_emits:
                 ms = re.search(r"fn check_restrictions\(&self, (\w+): Option<", e.skeleton())
                 if ms:
-                    br = [c[2] for c in relative_ctx(e.ctx, g.header.ctx) if c[0] == "alt" and c[1][0] == "islet" and c[1][1].startswith("Some")]
+                    br = [oc[1] for oc in (option_cond(c[1], c[2]) for c in relative_ctx(e.ctx, g.header.ctx) if c[0] == "alt") if oc is not None]
                     sigs.append((ms.group(1), br[0] if br else None, e))
             third = g.header.args[2] if len(g.header.args) > 2 else None
             no_own = third is not None and og.nf_str(third).endswith("None")
